@@ -475,7 +475,17 @@ pub fn gen_udp_plan_for(g: &mut Gen, thorough: bool, max_payload: usize, edge: O
         for _ in 0..g.range(2, 5) {
             let (ip, port) = match g.below(10) {
                 0..=4 => (ip0, port0 ^ (1 << g.below(16))),
-                5..=8 => (ip0 ^ (1 << g.below(24)), port0),
+                5..=7 => (ip0 ^ (1 << g.below(24)), port0),
+                8 => {
+                    // an octet that is an ASCII letter, and the same letter in the other case
+                    let sh = 8 * g.below(3) as u32;
+                    let letter = 0x41 + g.below(26) as u32;
+                    let base = (ip0 & !(0xff << sh)) | (letter << sh);
+                    if !targets.iter().any(|t| u32::from_be_bytes(t.ip) == base && t.port == port0) {
+                        targets.push(UdpTarget { ip: base.to_be_bytes(), port: port0, name: None, replies: 1, reply_size: 0 });
+                    }
+                    (base ^ (0x20 << sh), port0)
+                }
                 _ => ((ip0 & 0xffff_0000) | port0 as u32, (ip0 & 0xffff) as u16),
             };
             if port < 1024 || targets.iter().any(|t| u32::from_be_bytes(t.ip) == ip && t.port == port) {
